@@ -18,7 +18,7 @@ LEVEL = "exploration"
 RULE = ("case = (configuration, direction, event sequence); alphabet {CER known/unknown/no-common-app/relay, CEA "
         "2001/3xxx/5xxx, DWR, DWA, DPR, DPA, application request, application answer, clock advance}; all sequences "
         "to depth 3 (thorough 4) on inbound and outbound connections, pruned when the model reaches closed / "
-        "unspecified, plus random sequences to depth 10 with varied advances, x 4 configurations. Non-trivial = drives "
+        "unspecified, plus random sequences to depth 10 with varied advances, x 5 configurations. Non-trivial = drives "
         "the model through a transition other than 'ignored'; distinct by hash of the canonical script.")
 ASSUMPTIONS = ["behaviour after a second CER on one connection is unspecified (model stops judging that connection)",
                "CE deadline: closing is forbidden while elapsed < timeout and required at the first timer check with "
@@ -39,6 +39,10 @@ CONFIGS = {
         apps=[{"tag": "a4", "id": 4, "auth": True, "peers": ["peer1.verif.example", "peer2.verif.example"]},
               {"tag": "c3", "id": 3, "auth": False, "acct": True, "peers": ["peer1.verif.example"]}],
         node={"cer_timeout": 9, "cea_timeout": 7}),
+    "peer_timers_larger_than_node": dict(
+        peers=[{"name": "peer1.verif.example", "timers": {"cer_timeout": 8, "cea_timeout": 6}}],
+        apps=[{"tag": "a4", "id": 4, "auth": True, "peers": ["peer1.verif.example"]}],
+        node={"cer_timeout": 3, "cea_timeout": 2}),
     "no_apps": dict(
         peers=[{"name": "peer1.verif.example"}], apps=[], node={"cer_timeout": 6, "cea_timeout": 6}),
     "three_peers_app_on_other_peer": dict(
